@@ -32,6 +32,11 @@ class C10(Prop):
         rng = np.random.RandomState(seed + 101)
         n = 0
         reps = 14 if tier == 'quick' else 90
+        # the input of the recorded known finding (large potentials lose the normalisation, see known_findings.json):
+        # always exercised so that its KNOWN-FINDING line is printed on every run
+        yield dict(dom=[['a', 2], ['b', 3]],
+                   steps=[dict(ms=[dict(proj=['a'], q='I', noise=1.0, exact=True, y=[80.0, 20.0])], engine='MD', total=1.0)],
+                   zeros=[[['b'], [[0]]]], placement='unmeasured', warm=False, iters=50, truth='skewed', seed=int(seed * 1000003))
         for rep in range(reps):
             for eng in ENGINES:
                 for hist in (1, 2, 3):
